@@ -161,6 +161,16 @@ def build(spec):
         return (x for x in [build(s) for s in spec[1]])
     if t == "obj":
         return get_class(spec[1])(spec[2], [build(s) for s in spec[3]])
+    if t == "plainfn":
+        return _PLAIN[spec[1]]
+    if t == "wrapsfn":                    # functools.wraps-decorated function
+        return _DECORATED[spec[1]]
+    if t == "lrufn":                      # lru_cache wrapper
+        return _CACHED[spec[1]]
+    if t == "staticm":                    # staticmethod object
+        return _STATIC[spec[1]]
+    if t == "delegating":                 # user wrapper class with a delegate in __wrapped__
+        return _Delegating(build(spec[1]), spec[2])
     if t == "exci":                       # exception instance
         return EXC_CLASSES[spec[1]]("boom")
     if t == "excc":                       # exception class
@@ -168,6 +178,62 @@ def build(spec):
     if t == "exct":                       # tuple of exception classes (possibly nested)
         return tuple(build(s) for s in spec[1])
     raise AssertionError(spec)
+
+
+# ---- objects that expose `__wrapped__` without being typetracing proxies -------------------------
+import functools as _functools  # noqa: E402
+
+
+def _plain0(x=0):
+    return x
+
+
+def _plain1(x=1):
+    return x + 1
+
+
+_PLAIN = [_plain0, _plain1]
+
+
+def _decorate(f):
+    @_functools.wraps(f)
+    def wrapper(*a, **k):
+        return f(*a, **k)
+    return wrapper
+
+
+_DECORATED = [_decorate(f) for f in _PLAIN]
+_CACHED = [_functools.lru_cache(maxsize=None)(f) for f in _PLAIN]
+_STATIC = [staticmethod(f) for f in _PLAIN]
+
+
+class _Delegating:
+    """a wrapper that keeps its delegate in `__wrapped__` and has its own comparison behaviour:
+    mode 0: plain object (identity ==, always true, no `in`); mode 1: falsy; mode 2: equal to nothing,
+    contains nothing"""
+
+    def __init__(self, wrapped, mode):
+        self.__wrapped__ = wrapped
+        self.mode = mode
+
+    def __repr__(self):
+        return f"<Delegating {self.__wrapped__!r} mode {self.mode}>"
+
+    def __bool__(self):
+        return self.mode != 1
+
+    def __eq__(self, other):
+        if self.mode == 2:
+            return False
+        return self is other
+
+    def __hash__(self):
+        return 7
+
+    def __contains__(self, item):
+        if self.mode == 2:
+            return False
+        raise TypeError("not a container")
 
 
 class _MyErr(Exception):
@@ -303,6 +369,8 @@ def vclass(spec) -> str:
         return "float:" + (spec[1] if spec[1] in ("nan", "inf", "-inf") else "fin")
     if t == "obj":
         return "obj"
+    if t in ("wrapsfn", "lrufn", "staticm", "delegating"):
+        return "has-__wrapped__"
     return t
 
 
@@ -402,8 +470,20 @@ def gen_container(rng, member=None):
     return [kind, elems]
 
 
+def gen_wrapped(rng):
+    """an operand exposing `__wrapped__` that is not a typetracing proxy"""
+    c = rng.random()
+    if c < 0.5:
+        inner = rng.choice([["int", "0"], ["int", "3"], ["list", []], ["list", [["int", "3"]]], ["str", []],
+                            ["float", "nan"], ["none"], ["bool", False], ["set", [["int", "1"]]]])
+        return ["delegating", inner if rng.random() < 0.7 else gen_scalar(rng), rng.randrange(3)]
+    return [rng.choice(["wrapsfn", "lrufn", "staticm"]), rng.randrange(2)]
+
+
 def gen_value(rng, depth=0):
     c = rng.random()
+    if c < 0.05:
+        return gen_wrapped(rng)
     if c < 0.62:
         return gen_scalar(rng)
     if c < 0.80:
@@ -417,6 +497,10 @@ def neighbour(rng, spec):
     """a value related to spec (equal copy, off by one, same number in another type, ...)"""
     t = spec[0]
     c = rng.random()
+    if t in ("wrapsfn", "lrufn", "staticm") and c < 0.7:
+        return ["plainfn", spec[1]]                                       # the function it wraps
+    if t == "delegating" and c < 0.7:
+        return spec[1]                                                    # its delegate
     if c < 0.3:
         return spec
     if t == "int":
